@@ -58,9 +58,8 @@ pub fn run(seed: u64, thorough: bool) {
                 && one.len() == *n;
             Line::new("oracle").str("name", "hasher_matches_reference_crate").raw("ok", if ok { "true" } else { "false" })
                 .str("hash", hash).num("len", *len as u64).hex("data", &data[..data.len().min(64)]).hex("got", &one).hex("want", &want).emit();
-            if hash.starts_with("sha256") {
-                Line::new("hash").str("hash", hash).hex("data", &data).hex("out", &one).raw("cost", "0.02").emit();
-            }
+            // the Gallina SHA-256 / SHAKE256 (Exec/Sha256.v, Exec/Keccak.v) on the same input
+            Line::new("hash").str("hash", hash).hex("data", &data).hex("out", &one).raw("cost", "0.02").emit();
         }
     }
 }
